@@ -25,7 +25,8 @@ type PropSpec struct {
 var propSpecs = map[string]*PropSpec{
 	"C01": {ID: "C01", Pkgs: []string{"./benchfmt", "./benchunit", "./benchfmt/internal/bytesconv"}, BoundedChecks: []boundedSpec{
 		{"benchfmt", "roundtrip", "write then read back: exhaustive short configuration histories (file / internal / absent transitions), every special float value in plain and rescaled units, and seeded random streams with API edits — the writer's diffing is not under contract"}}},
-	"C02": {ID: "C02", Pkgs: []string{"./benchfmt", "./benchunit", "./benchfmt/internal/bytesconv"}},
+	"C02": {ID: "C02", Pkgs: []string{"./benchfmt", "./benchunit", "./benchfmt/internal/bytesconv"}, BoundedChecks: []boundedSpec{
+		{"benchfmt", "files", "Files over every short argument list of bare and labelled paths (duplicates, the same path bare and labelled, labels on and off): the .file label of every result (own label, duplicates disambiguated as path#k), file configuration not leaking into the next file, unit metadata carried across — Files.init/Scan open real files and count paths in maps; not under contract"}}},
 	"C03": {ID: "C03", Pkgs: []string{"./benchfmt", "./benchunit", "./benchfmt/internal/bytesconv"}, BoundedChecks: []boundedSpec{
 		{"benchfmt/internal/bytesconv", "parsefloat", "bytesconv.ParseFloat and Atoi agree bit for bit (value and error kind) with strconv on an enumerated corpus — stands in for the multiprecision slow path (decimal.go, atofHex), which is outside deductive reach"}}},
 	"C04": {ID: "C04", Pkgs: []string{"./benchfmt", "./benchunit", "./benchproc", "./benchfmt/internal/bytesconv"}, BoundedChecks: []boundedSpec{
@@ -55,7 +56,7 @@ var propSpecs = map[string]*PropSpec{
 		{"cmd/benchstat", "textcsv", "text and CSV renderings of the same generated inputs under five flag settings: same tables, row labels, intervals, deltas, comparison strings and warning messages; every scaled number equals the CSV value to within half a unit of its last printed digit; header rules at the column boundaries on every header line; numbers of a column end at one offset and lie inside the column's rules — Table.ToText/ToCSV and the scaler are not under contract"}}},
 	"C17": {ID: "C17", Pkgs: []string{"./benchstat", "./internal/stats"}, BoundedChecks: []boundedSpec{
 		{"benchstat", "legacy", "whole Tables() outputs against an independent recomputation: outlier fence (R8 quartiles) and retained values in input order, min<=mean<=max, the significance gate / percentage / direction / note for every pair of samples and each delta test, first-appearance and stable sort order, geomean row — Tables, computeStats and addGeomean are not under contract"}}},
-	"C19": {ID: "C19", Pkgs: []string{"./storage/db", "./storage/query"}, BoundedChecks: []boundedSpec{
+	"C19": {ID: "C19", Pkgs: []string{"./storage/db", "./storage/query", "./storage/benchfmt"}, BoundedChecks: []boundedSpec{
 		{"storage/db", "merge", "pairs and triples of query parts on one key evaluated by brute force (conjunction semantics, contradiction detection), and parseQuery on multi-term queries"},
 		{"analysis/app", "roundtrip", "a label value quoted by addToQuery is split back by SplitWords into exactly the original word, for every short string over the characters that matter to quoting"}}},
 }
